@@ -20,7 +20,7 @@ func init() {
 		Rule: "1..32 concurrent senders (user goroutines plus parallel foreground and background handler invocations) each issue numbered lines 'S<sender> <counter> <payload>' (payload 0..480 bytes) through Raw and, for one line in six, through Privmsg / Notice / Topic / Quit " +
 			"while the server end reads fast, one write per token, or in bursts; flood control off; connection stays up. After all senders returned and a trailing separator reached the wire, the transcript must contain " +
 			"every issued line exactly once, byte for byte, nothing else, and each sender's counters in increasing order. A run is non-trivial when lines of >= 2 senders were interleaved on the wire and the output " +
-			"A third of the runs start after refused second Connect / ConnectContext calls whose context is cancelled afterwards. A quarter of the runs share the process with a second client that sends up to 60000 lines of its own; both transcripts are judged. queue was observed full (issued - written >= 33) at least once; distinct_nontrivial = distinct (senders bucket, sender kinds, server read mode, GOMAXPROCS, interleaved, queue-full) cells.",
+			"A third of the runs start after refused second Connect / ConnectContext calls whose context is cancelled afterwards. A quarter of the runs share the process with a second client that sends up to 60000 lines of its own; both transcripts are judged. A quarter of the payloads are arbitrary bytes (NUL, latin-1, broken UTF-8); the server pauses for 60 ms a few times while senders wait on the full queue (sessions may run with a 30 ms Config.Timeout). queue was observed full (issued - written >= 33) at least once; distinct_nontrivial = distinct (senders bucket, sender kinds, server read mode, GOMAXPROCS, interleaved, queue-full) cells.",
 		Assumptions: []string{"Raw blocks when the queue is full (documented by TestSendDeadlockOnFullBuffer); the harness never closes the connection while senders run"},
 		RaceClaim: func(rep string) bool {
 			// races inside the send path itself (commands.go Raw / connection.go send, write)
